@@ -423,8 +423,14 @@ class _Observable(_STIXBase):
         STIX Cyber Observables (SCOs)
         """
 
-        if '*' in self._STIXBase__valid_refs:
-            return  # don't check if refs are valid
+        valid_refs = self._STIXBase__valid_refs
+        if valid_refs == {'*': '*'} or (
+            not isinstance(valid_refs, collections.abc.Mapping) and
+            '*' in valid_refs
+        ):
+            # don't check if refs are valid (a container's object which
+            # happens to have the key '*' is not that request)
+            return
 
         if ref not in self._STIXBase__valid_refs:
             raise InvalidObjRefError(self.__class__, prop_name, "'%s' is not a valid object in local scope" % ref)
